@@ -630,6 +630,12 @@ func (g *Gen) genOp() *Op {
 	for try := 0; try < 6; try++ {
 		k := kinds[r.Pick(ws)]
 		if op := g.genKind(k); op != nil {
+			switch op.K {
+			case "renew", "terminate", "complete", "store", "migrate", "cancel":
+				if op.Tam == "" && r.Chance(0.06) {
+					op.G = r.Range(1, 40_000) // runs out of gas shortly before the end of the handler
+				}
+			}
 			return op
 		}
 	}
